@@ -20,8 +20,10 @@ Definition bind {A B} (r : res A) (f : A -> res B) : res B :=
 Notation "'do' x <- r ; k" := (bind r (fun x => k)) (at level 200, x pattern, r at level 100, k at level 200).
 
 (* coordinate values and static payload arguments: ints, strings, the float 0.5 of
-   power(0.5), and the label "first-last" that reduce(keep_dim=True) gives the kept dimension *)
-Inductive cv : Type := CZ (z : Z) | CS (s : string) | CHalf | CKept (a b : cv).
+   power(0.5), the label "first-last" that reduce(keep_dim=True) gives the kept dimension, and
+   an integer-valued Python FLOAT (the 2.0 of power(2.0): as a number it is CZ 2, as an operand it
+   makes NumPy compute in floating point -- Fluent/ActionSemT.v) *)
+Inductive cv : Type := CZ (z : Z) | CS (s : string) | CHalf | CKept (a b : cv) | CF (z : Z).
 
 Fixpoint cv_eqb (a b : cv) : bool :=
   match a, b with
@@ -29,6 +31,7 @@ Fixpoint cv_eqb (a b : cv) : bool :=
   | CS x, CS y => String.eqb x y
   | CHalf, CHalf => true
   | CKept a1 a2, CKept b1 b2 => cv_eqb a1 b1 && cv_eqb a2 b2
+  | CF x, CF y => Z.eqb x y
   | _, _ => false
   end.
 
